@@ -177,23 +177,34 @@ def _store(D):
     p = w.problem
     definition = definition_of(p)
     mode = {}
-    if D.dec('cfg', 'rewrite', 5) == 1:
-        # the file already exists and was written for ANOTHER problem (other parameter / cost names, other individuals);
-        # opening it with mode="rewrite" must leave nothing of the old content behind
-        old = W.World(Decisions(None, {"cfg/'names'": 0 if p.parameters[0]['name'] != 'x0' else 2, "cfg/'n'": 4, "cfg/'m'": 3}),
-                      sim, fail='none', name='previous study')
-        ostore = W.attach_store(old, path)
-        for k in range(1 + D.dec('work', 'oldrows', 3)):
-            oi = Individual(W.gen_vector(old, D, 'work', ('ov', k)))
-            oi.id = 1000 + k
-            oi.costs = old.f(oi.vector)
-            with W.quiet():
-                ostore.sync_individual(oi)
-        old.problem.data_store = None
-        ostore = None
-        mode = {'mode': 'rewrite'}
-        ctx.probe('rewrite_over_other_problem')
-    store = W.attach_store(w, path, **mode)
+    try:
+        if D.dec('cfg', 'rewrite', 5) == 1:
+            # the file already exists and was written for ANOTHER problem (other parameter / cost names, other individuals);
+            # opening it with mode="rewrite" must leave nothing of the old content behind
+            old = W.World(Decisions(None, {"cfg/'names'": 0 if p.parameters[0]['name'] != 'x0' else 2, "cfg/'n'": 4, "cfg/'m'": 3}),
+                          sim, fail='none', name='previous study')
+            ostore = W.attach_store(old, path)
+            for k in range(1 + D.dec('work', 'oldrows', 3)):
+                oi = Individual(W.gen_vector(old, D, 'work', ('ov', k)))
+                oi.id = 1000 + k
+                oi.costs = old.f(oi.vector)
+                with W.quiet():
+                    ostore.sync_individual(oi)
+            old.problem.data_store = None
+            ostore = None
+            mode = {'mode': 'rewrite'}
+            ctx.probe('rewrite_over_other_problem')
+        store = W.attach_store(w, path, **mode)
+    except (kernel.Deadlock, kernel.StepCap):
+        raise
+    except Exception as e:
+        if type(e).__name__ == 'HarnessError':
+            raise
+        ctx.violation('unexpected_exception', 'SqliteDataStore', 'creating the store raised %r' % (e,))
+        w.problem.data_store = None
+        W.remove_db(path)
+        ctx.sample = {'family': 'store', 'ops': ['create'], 'individuals': 0}
+        return core.result(ctx, sim)
     site = 'SqliteDataStore'
     nops = 1 + D.dec('cfg', 'nops', 20)
     pool = []
